@@ -176,6 +176,29 @@ impl RefTree {
         }
     }
 
+    /// Append a leaf given only its size and hash (a "virtual" block: lets the reference build and
+    /// sign trees whose sizes no real data could reach, e.g. beyond 2^32 bytes).
+    pub fn append_leaf(&mut self, size: u64, hash: [u8; 32]) {
+        let i = 2 * self.len;
+        let mut cur = RNode { index: i, size, hash };
+        self.nodes.insert(i, cur);
+        self.len += 1;
+        loop {
+            let idx = cur.index;
+            if offset(idx) & 1 == 1 {
+                let sib = sibling(idx);
+                if let Some(l) = self.nodes.get(&sib).copied() {
+                    let p = parent(idx);
+                    let node = RNode { index: p, size: l.size + cur.size, hash: parent_hash(&l, &cur) };
+                    self.nodes.insert(p, node);
+                    cur = node;
+                    continue;
+                }
+            }
+            break;
+        }
+    }
+
     pub fn get(&self, i: u64) -> Option<&RNode> {
         self.nodes.get(&i)
     }
